@@ -209,114 +209,13 @@ func TestDatagramLinesIndependent(t *testing.T) {
 		m1, e1, b1 := r.Counters()
 		rawMaps := append([]*gostatsd.MetricMap(nil), r.Sink.RawMaps...)
 		rawEvents := append([]*gostatsd.Event(nil), r.Sink.RawEvents...)
-		if len(gotMaps) > 1 {
-			vt.Fail(t, "C05:map-count", "one datagram dispatched %d maps", len(gotMaps))
-		}
-		got := model.Agg{}
-		for _, mm := range gotMaps {
-			if d := model.DupKeys(mm); len(d) > 0 {
-				vt.Fail(t, "C05:duplicate-series", "series under two keys: %v", d)
-			}
-			got.AddMap(mm)
-		}
-
-		// oracle (1): fold of each segment parsed alone
-		want := model.Agg{}
-		var wantEvents []*gostatsd.Event
-		var dateGiven []bool
-		wantBad, wantMetrics := 0.0, 0.0
-		allKnown := true
-		for _, s := range segs {
-			if s.text == "" {
-				wantBad++
-				continue
-			}
-			o := parseAlone(t, ns, ignoreHost, ip, ts, []byte(s.text))
-			wantBad += o.b
-			wantMetrics += o.m
-			for _, mm := range o.maps {
-				single := model.FromMap(mm)
-				for k, sr := range single {
-					if k.Type == gostatsd.GAUGE {
-						for bits := range sr.GaugeCands {
-							want.SetGaugeLast(k, float64frombits(bits), sr.Timestamp)
-						}
-						delete(single, k)
-					}
-				}
-				want.Merge(single)
-			}
-			for _, e := range o.events {
-				wantEvents = append(wantEvents, e)
-				// only an event generated with a d: attribute carries its own time (title/text may contain "|d:" as plain content)
-				dateGiven = append(dateGiven, s.kind == "event" && s.hasDate)
-			}
-			if s.kind == "piece" {
-				allKnown = false
-			}
-		}
+		allKnown := checkDatagram(t, "first", segs, datagram, ns, ignoreHost, ip, ts, start, gotMaps, gotEvents, m1, e1, b1)
 		fail := func(sig, f string, a ...interface{}) {
 			vt.WriteCase(map[string]interface{}{"datagram": datagram, "namespace": ns, "ignore_host": ignoreHost, "sender": ip, "timestamp": ts})
 			vt.Fail(t, sig, "datagram %q (ns=%q ignore-host=%v sender=%q): %s", datagram, ns, ignoreHost, ip, fmt.Sprintf(f, a...))
 		}
-		if d := model.Diff(got, want, model.Opts{SampledTol: 1e-12}); d != "" {
-			fail("C05:not-concatenation", "whole datagram differs from parsing each line alone: %s", d)
-		}
-		if len(gotEvents) != len(wantEvents) {
-			fail("C05:events-not-concatenation", "%d events, parsing each line alone gives %d", len(gotEvents), len(wantEvents))
-		}
-		for i := range gotEvents {
-			if !eventsEqual(gotEvents[i], wantEvents[i], dateGiven[i]) {
-				fail("C05:events-not-concatenation", "event %d is %+v, alone it is %+v", i, *gotEvents[i], *wantEvents[i])
-			}
-		}
-		if b1 != wantBad || m1 != wantMetrics || e1 != float64(len(wantEvents)) {
-			fail("C05:counters", "metrics/events/bad = %v/%v/%v, per-line sum = %v/%v/%v", m1, e1, b1, wantMetrics, len(wantEvents), wantBad)
-		}
 		if done1 != 1 {
 			fail("C05:donefunc", "DoneFunc called %d times", done1)
-		}
-
-		// oracle (2): direct model from the known fields
-		if allKnown {
-			direct := model.Agg{}
-			var directEvents []*gostatsd.Event
-			bad := 0.0
-			for _, s := range segs {
-				switch s.kind {
-				case "known":
-					m := s.metric
-					k := model.MakeKey(m.Type, m.Name, m.Tags, string(m.Source))
-					if m.Type == gostatsd.GAUGE {
-						direct.SetGaugeLast(k, m.Value, m.Timestamp)
-					} else {
-						direct.AddMetric(m)
-					}
-				case "event":
-					directEvents = append(directEvents, s.event)
-				default:
-					bad++
-				}
-			}
-			if d := model.Diff(got, direct, model.Opts{SampledTol: 1e-12}); d != "" {
-				fail("C05:fields", "dispatched data differs from the lines' fields (time, source, tags, values): %s", d)
-			}
-			if b1 != bad {
-				fail("C05:bad-line-count", "bad lines %v, rejected lines %v", b1, bad)
-			}
-			if len(gotEvents) != len(directEvents) {
-				fail("C05:event-fields", "%d events want %d", len(gotEvents), len(directEvents))
-			}
-			for i, e := range gotEvents {
-				w := *directEvents[i]
-				has := w.DateHappened != 0
-				if !has {
-					w.DateHappened = start
-				}
-				if !eventsEqual(e, &w, has) {
-					fail("C05:event-fields", "event %d is %+v want %+v", i, *e, w)
-				}
-			}
 		}
 
 		// oracle (3): nothing produced from datagram 1 changes when the same parser handles datagram 2
@@ -326,15 +225,24 @@ func TestDatagramLinesIndependent(t *testing.T) {
 		if snapMaps != describeAll(gotMaps) || snapEvents != describeEvents(gotEvents) {
 			fail("C05:changed-before-second-datagram", "dispatched data changed after dispatch")
 		}
-		second := rapid.SliceOfN(segGen(ns, ignoreHost, ip, ts+1), 1, 8).Draw(t, "second-datagram")
+		second := rapid.SliceOfN(segGen(ns, ignoreHost, "9.9.9.9", ts+1), 1, 8).Draw(t, "second-datagram")
 		var t2 []string
 		for _, s := range second {
 			t2 = append(t2, s.text)
 		}
+		if second[len(second)-1].text == "" {
+			second = second[:len(second)-1] // no trailing newline: a final empty line does not exist
+		}
 		buf2 := []byte(strings.Join(t2, "\n"))
+		text2 := string(buf2)
+		start2 := time.Now().Unix()
 		if p := r.Feed([]*statsd.Datagram{{IP: "9.9.9.9", Msg: buf2, Timestamp: gostatsd.Nanotime(ts + 1), DoneFunc: func() {}}}); p != "" {
 			vt.Fail(t, "C05:parser-panic", "parser failed on second datagram %q: %s", buf2, p)
 		}
+		// the second datagram goes through pooled objects the first one used: its result must be what it would be alone
+		allMaps, allEvents := r.Sink.Snapshot()
+		m2, e2, b2 := r.Counters()
+		checkDatagram(t, "second (after "+strconv.Quote(datagram)+" through the same parser)", second, text2, ns, ignoreHost, "9.9.9.9", ts+1, start2, allMaps[len(gotMaps):], allEvents[len(gotEvents):], m2-m1, e2-e1, b2-b1)
 		for i := range buf1 {
 			buf1[i] = 0xAA
 		}
@@ -416,3 +324,117 @@ func float64frombits(b uint64) float64 { return mathFloat64frombits(b) }
 
 var _ = bytes.Equal
 var _ = fakes.NewSink
+
+// checkDatagram applies oracles (1) and (2) to what one datagram produced: gotMaps / gotEvents are the maps and
+// events dispatched for it, m1/e1/b1 the increase of the parser's metrics / events / bad-lines counters. which says
+// which datagram of the parser's life this is; its result must not depend on that.
+func checkDatagram(t vt.TB, which string, segs []seg, datagram, ns string, ignoreHost bool, ip string, ts, start int64, gotMaps []*gostatsd.MetricMap, gotEvents []*gostatsd.Event, m1, e1, b1 float64) (allKnown bool) {
+	if len(gotMaps) > 1 {
+		vt.Fail(t, "C05:map-count", "one datagram dispatched %d maps", len(gotMaps))
+	}
+	got := model.Agg{}
+	for _, mm := range gotMaps {
+		if d := model.DupKeys(mm); len(d) > 0 {
+			vt.Fail(t, "C05:duplicate-series", "series under two keys: %v", d)
+		}
+		got.AddMap(mm)
+	}
+
+	// oracle (1): fold of each segment parsed alone
+	want := model.Agg{}
+	var wantEvents []*gostatsd.Event
+	var dateGiven []bool
+	wantBad, wantMetrics := 0.0, 0.0
+	allKnown = true
+	for _, s := range segs {
+		if s.text == "" {
+			wantBad++
+			continue
+		}
+		o := parseAlone(t, ns, ignoreHost, ip, ts, []byte(s.text))
+		wantBad += o.b
+		wantMetrics += o.m
+		for _, mm := range o.maps {
+			single := model.FromMap(mm)
+			for k, sr := range single {
+				if k.Type == gostatsd.GAUGE {
+					for bits := range sr.GaugeCands {
+						want.SetGaugeLast(k, float64frombits(bits), sr.Timestamp)
+					}
+					delete(single, k)
+				}
+			}
+			want.Merge(single)
+		}
+		for _, e := range o.events {
+			wantEvents = append(wantEvents, e)
+			// only an event generated with a d: attribute carries its own time (title/text may contain "|d:" as plain content)
+			dateGiven = append(dateGiven, s.kind == "event" && s.hasDate)
+		}
+		if s.kind == "piece" {
+			allKnown = false
+		}
+	}
+	fail := func(sig, f string, a ...interface{}) {
+		vt.WriteCase(map[string]interface{}{"datagram": datagram, "namespace": ns, "ignore_host": ignoreHost, "sender": ip, "timestamp": ts})
+		vt.Fail(t, sig, "%s datagram %q (ns=%q ignore-host=%v sender=%q): %s", which, datagram, ns, ignoreHost, ip, fmt.Sprintf(f, a...))
+	}
+	if d := model.Diff(got, want, model.Opts{SampledTol: 1e-12}); d != "" {
+		fail("C05:not-concatenation", "whole datagram differs from parsing each line alone: %s", d)
+	}
+	if len(gotEvents) != len(wantEvents) {
+		fail("C05:events-not-concatenation", "%d events, parsing each line alone gives %d", len(gotEvents), len(wantEvents))
+	}
+	for i := range gotEvents {
+		if !eventsEqual(gotEvents[i], wantEvents[i], dateGiven[i]) {
+			fail("C05:events-not-concatenation", "event %d is %+v, alone it is %+v", i, *gotEvents[i], *wantEvents[i])
+		}
+	}
+	if b1 != wantBad || m1 != wantMetrics || e1 != float64(len(wantEvents)) {
+		fail("C05:counters", "metrics/events/bad = %v/%v/%v, per-line sum = %v/%v/%v", m1, e1, b1, wantMetrics, len(wantEvents), wantBad)
+	}
+
+	// oracle (2): direct model from the known fields
+	if allKnown {
+		direct := model.Agg{}
+		var directEvents []*gostatsd.Event
+		bad := 0.0
+		for _, s := range segs {
+			switch s.kind {
+			case "known":
+				m := s.metric
+				k := model.MakeKey(m.Type, m.Name, m.Tags, string(m.Source))
+				if m.Type == gostatsd.GAUGE {
+					direct.SetGaugeLast(k, m.Value, m.Timestamp)
+				} else {
+					direct.AddMetric(m)
+				}
+			case "event":
+				directEvents = append(directEvents, s.event)
+			default:
+				bad++
+			}
+		}
+		if d := model.Diff(got, direct, model.Opts{SampledTol: 1e-12}); d != "" {
+			fail("C05:fields", "dispatched data differs from the lines' fields (time, source, tags, values): %s", d)
+		}
+		if b1 != bad {
+			fail("C05:bad-line-count", "bad lines %v, rejected lines %v", b1, bad)
+		}
+		if len(gotEvents) != len(directEvents) {
+			fail("C05:event-fields", "%d events want %d", len(gotEvents), len(directEvents))
+		}
+		for i, e := range gotEvents {
+			w := *directEvents[i]
+			has := w.DateHappened != 0
+			if !has {
+				w.DateHappened = start
+			}
+			if !eventsEqual(e, &w, has) {
+				fail("C05:event-fields", "event %d is %+v want %+v", i, *e, w)
+			}
+		}
+	}
+
+	return allKnown
+}
